@@ -11,6 +11,7 @@ use std::panic::{self, AssertUnwindSafe};
 
 pub mod frames;
 pub mod gens;
+pub mod net;
 pub mod port;
 
 #[derive(Clone)]
